@@ -834,10 +834,11 @@ func (e *Env) loadCorpus() ([]GrammarSpec, error) {
 	{
 		var sb strings.Builder
 		sb.WriteString("package zzPKG\n\nimport \"github.com/pointlander/peg/zzsim/simrt\"\n\ntype G Peg {\n\tH *simrt.Host\n}\n\nS <- (A 'x' / Z 'y' / M 'z' / Fill)+ !.\nA <- 'a' <'b'?> { p.H.Act(1, text, begin, end) }\n")
-		for i := 0; i < 262; i++ {
-			fmt.Fprintf(&sb, "F%d <- 'f' F%d / 'g'\n", i, (i+1)%262)
+		// 255 fillers put Z exactly 256 rule numbers after A (and M after F0)
+		for i := 0; i < 255; i++ {
+			fmt.Fprintf(&sb, "F%d <- 'f' F%d / 'g'\n", i, (i+1)%255)
 		}
-		sb.WriteString("Fill <- 'f' F0\nM <- 'a' 'b' 'b'\nZ <- 'a' 'a' / 'a' 'b' 'c'\n")
+		sb.WriteString("Z <- 'a' 'a' / 'a' 'b' 'c'\nM <- 'a' 'b' 'b'\nFill <- 'f' F0\n")
 		out = append(out, GrammarSpec{Base: "fmany", Kind: "fixed", Text: sb.String(), OptSets: [][]string{{}, {"-inline", "-switch"}},
 			Inputs: []string{"ax", "aay", "abx", "abcy", "abbz", "fg", "ffg", "axaay", "aayax", "abbzabcy", "ay", "", "ffffg", "abz"}, HasHost: true, Salt: simrt.Derive(7, "many")})
 	}
